@@ -490,7 +490,7 @@ func (ex *Exec) value(fr *frame, in ssa.Value, st *state) Val {
 		if base.K == VBytes {
 			if c, ok := x.Index.(*ssa.Const); ok && c.Value != nil {
 				if k, ok := constant.Int64Val(c.Value); ok && int(k) < base.N && k >= 0 {
-					return Val{K: VBytePtr, Fetch: base.Fetch, Idx: int(k)}
+					return Val{K: VBytePtr, Fetch: base.Fetch, Idx: base.Idx + int(k)}
 				}
 			}
 			ex.problem("%s: index into fetched bytes is not a constant below the fetched length", fr.fn.Name())
@@ -550,7 +550,34 @@ func (ex *Exec) value(fr *frame, in ssa.Value, st *state) Val {
 		}
 	case *ssa.BinOp:
 		return ex.binop(fr, x, st)
-	case *ssa.Slice, *ssa.MakeSlice, *ssa.FieldAddr, *ssa.Field, *ssa.Lookup, *ssa.TypeAssert, *ssa.MakeMap, *ssa.MakeClosure:
+	case *ssa.Slice:
+		// a constant sub-slice of fetched bytes
+		base := ex.val(fr, x.X)
+		if base.K == VBytes {
+			lo, hi := 0, base.N
+			okc := true
+			if x.Low != nil {
+				if c, ok := x.Low.(*ssa.Const); ok && c.Value != nil {
+					k, _ := constant.Int64Val(c.Value)
+					lo = int(k)
+				} else {
+					okc = false
+				}
+			}
+			if x.High != nil {
+				if c, ok := x.High.(*ssa.Const); ok && c.Value != nil {
+					k, _ := constant.Int64Val(c.Value)
+					hi = int(k)
+				} else {
+					okc = false
+				}
+			}
+			if okc && 0 <= lo && lo <= hi && hi <= base.N {
+				return Val{K: VBytes, Fetch: base.Fetch, Idx: base.Idx + lo, N: hi - lo}
+			}
+		}
+		ex.problem("%s: slice expression that is not a constant sub-slice of fetched bytes", fr.fn.Name())
+	case *ssa.MakeSlice, *ssa.FieldAddr, *ssa.Field, *ssa.Lookup, *ssa.TypeAssert, *ssa.MakeMap, *ssa.MakeClosure:
 		ex.problem("%s: unsupported construct %T", fr.fn.Name(), in)
 	default:
 		ex.problem("%s: unsupported value %T", fr.fn.Name(), in)
@@ -767,6 +794,17 @@ func (ex *Exec) libcall(fr *frame, in *ssa.Call, st *state) Val {
 		id := countFetches(st)
 		st.events = append(st.events, Event{Kind: "fetch", N: 1})
 		return Val{K: VTuple, Tup: []Val{{K: VNum, A: ex.S.Sym(fmt.Sprintf("byte[%d.0]", id), 0, 255)}, {K: VErrNil}}}
+	case "(encoding/binary.bigEndian).Uint16", "(encoding/binary.bigEndian).Uint32", "(encoding/binary.bigEndian).Uint64":
+		n := map[string]int{"(encoding/binary.bigEndian).Uint16": 2, "(encoding/binary.bigEndian).Uint32": 4, "(encoding/binary.bigEndian).Uint64": 8}[name]
+		bs := arg(1)
+		if bs.K == VBytes && bs.N >= n && n < 8 {
+			sum := ConstInt(0)
+			for k := 0; k < n; k++ {
+				b := ex.S.Sym(fmt.Sprintf("byte[%d.%d]", bs.Fetch, bs.Idx+k), 0, 255)
+				sum = Add(sum, Scale(b, rat(int64(1)<<uint(8*(n-1-k)), 1)))
+			}
+			return Val{K: VNum, A: sum}
+		}
 	case "github.com/asticode/go-astikit.NewBitsWriterBatch":
 		return Val{K: VBatch}
 	case "(*github.com/asticode/go-astikit.BitsWriterBatch).Write":
